@@ -46,7 +46,7 @@ def canon(x):
     if isinstance(x, int):
         return x
     if isinstance(x, float):
-        return {"f": repr(x)}
+        return {"f": repr(float(x))}          # float() first: np.float64 is a float subclass with its own repr
     if np is not None:
         if isinstance(x, np.bool_):
             return bool(x)
